@@ -845,7 +845,7 @@ class C20:
         if tree["single"]:
             materialise(base, [[tree["name"], tree["files"][0][1], tree["files"][0][2]]])
         else:
-            materialise(root, tree["files"], tree["dirs"])
+            materialise(root, tree["files"], tree["dirs"], tree.get("links", ()))
         case = dict(case)
         case["cmd"] = None if case["pos"] == "implicit" else case["cmdword"]
         o = case["opts"]
